@@ -39,6 +39,7 @@ const (
 
 type attemptRec struct {
 	n           int
+	retrySlot   int // sequence number reserved for the retry that preceded this attempt
 	kind        attemptKind
 	start       time.Duration // simulated instant RoundTrip was called
 	startSeq    int
@@ -155,6 +156,9 @@ type clientWorld struct {
 	callIdx        int  // index of the call a per-call oracle is looking at
 	b1Unclear      bool // per-call view: an earlier call's connection carried a retry field
 	getBodyFailSeq int
+	noOnRetry      bool // the Client has no OnRetry: waits are taken from the attempts' instants
+	useDefault     bool // the connection is made with the package-level NewConnection (DefaultClient)
+	lateEdits      bool // the caller changes its Client and request after NewConnection
 
 	connectInvoked, connectReturned int
 	connectErr                      error
@@ -192,10 +196,12 @@ func (w *clientWorld) genBackoff() {
 		b.Jitter = []float64{0.1, 0.25, 0.9}[ch.Intn(3, "jitter value")]
 	}
 	if ch.Chance(1, 2, "max interval") {
-		b.MaxInterval = []time.Duration{50 * time.Millisecond, time.Second, 10 * time.Second}[ch.Intn(3, "max interval value")]
+		// "If <=0 = the wait time can infinitely grow"
+		b.MaxInterval = []time.Duration{50 * time.Millisecond, time.Second, 10 * time.Second, -time.Second}[ch.Intn(4, "max interval value")]
 	}
 	if ch.Chance(1, 3, "max elapsed") {
-		b.MaxElapsedTime = []time.Duration{100 * time.Millisecond, 2 * time.Second, 30 * time.Second, 10 * time.Minute}[ch.Intn(4, "max elapsed value")]
+		// "If <=0 = no limit"
+		b.MaxElapsedTime = []time.Duration{100 * time.Millisecond, 2 * time.Second, 30 * time.Second, 10 * time.Minute, -time.Minute}[ch.Intn(5, "max elapsed value")]
 	}
 	switch ch.Weighted([]int{3, 1, 5}, "max retries") {
 	case 0:
@@ -207,6 +213,11 @@ func (w *clientWorld) genBackoff() {
 	}
 	if prop == "C13" {
 		b.MaxRetries = ch.Range(0, 2, "max retries value")
+	}
+	if ch.Chance(1, 10, "package-level NewConnection") {
+		// sse.NewConnection uses DefaultClient: its documented back-off, with our transport put in for the occasion
+		w.useDefault = true
+		b = sse.Backoff{InitialInterval: 500 * time.Millisecond, Multiplier: 1.5, Jitter: 0.5}
 	}
 	w.cfg = b
 	e := b
@@ -294,7 +305,10 @@ func (w *clientWorld) generate() {
 	prop := w.rc.Prop
 	w.genBackoff()
 	w.maxAtt = ch.Range(2, 10, "attempt limit")
-	w.validator = ch.Weighted([]int{6, 2, 2}, "validator")
+	w.validator = ch.Weighted([]int{6, 2, 2, 2}, "validator")
+	if w.useDefault {
+		w.validator = 0
+	}
 	if w.validator == 2 {
 		w.rejectAt = ch.Range(1, 4, "validator rejects attempt")
 		w.rejectErr = newInjected("validator verdict")
@@ -331,6 +345,8 @@ func (w *clientWorld) generate() {
 	if ch.Chance(1, 6, "time passes between NewConnection and Connect") {
 		w.preDelay = []time.Duration{time.Millisecond, 5 * time.Second, time.Hour}[ch.Intn(3, "delay before Connect")]
 	}
+	w.noOnRetry = w.bodyKind < 3 && ch.Chance(1, 5, "client without OnRetry")
+	w.lateEdits = ch.Chance(1, 5, "caller edits client and request after NewConnection")
 	if ch.Chance(1, 4, "client already used for other connections") {
 		w.priorConns = ch.Range(1, 2, "earlier connections of the client")
 	}
@@ -366,7 +382,8 @@ type clientBody struct {
 func (rt *clientRT) RoundTrip(req *http.Request) (*http.Response, error) {
 	w := rt.w
 	ch := w.ch
-	a := &attemptRec{n: len(w.attempts) + 1, start: w.sim.Elapsed(), startSeq: w.tick(), header: req.Header.Clone(), cancelledAt: -1}
+	slot := w.tick()
+	a := &attemptRec{n: len(w.attempts) + 1, retrySlot: slot, start: w.sim.Elapsed(), startSeq: w.tick(), header: req.Header.Clone(), cancelledAt: -1}
 	if n := len(w.attempts); n > 0 && w.attempts[n-1].endSeq == 0 {
 		w.attempts[n-1].endSeq = a.startSeq
 	}
@@ -392,6 +409,12 @@ func (rt *clientRT) RoundTrip(req *http.Request) (*http.Response, error) {
 		if w.rc.Prop == "C13" {
 			kind = attStream
 		}
+	}
+	oddResponse := false
+	if kind == attReject && w.validator == 3 {
+		// NoopValidator: whatever the status and content type, the body is read as an event stream
+		kind, oddResponse = attStream, true
+		w.o.probe("NoopValidator accepts a response the default validator rejects")
 	}
 	a.kind = kind
 	switch kind {
@@ -471,8 +494,15 @@ func (rt *clientRT) RoundTrip(req *http.Request) (*http.Response, error) {
 		body.slow = []time.Duration{time.Millisecond, 100 * time.Millisecond, 2 * time.Second, 40 * time.Second}[ch.Intn(4, "read latency")]
 	}
 	a.connected = w.sim.Elapsed()
-	w.sim.Logf("RoundTrip", "#%d stream %q end=%d", a.n, a.stream, a.endKind)
-	return &http.Response{StatusCode: 200, Status: "200 OK", Proto: "HTTP/1.1", ProtoMajor: 1, ProtoMinor: 1,
+	if oddResponse {
+		if ch.Chance(1, 2, "bad status") {
+			a.status = []int{204, 404, 500, 301}[ch.Intn(4, "status")]
+		} else {
+			a.ctype = []string{"text/plain", "", "application/json", "text/event-streamx"}[ch.Intn(4, "content type")]
+		}
+	}
+	w.sim.Logf("RoundTrip", "#%d stream %q end=%d status=%d ctype=%q", a.n, a.stream, a.endKind, a.status, a.ctype)
+	return &http.Response{StatusCode: a.status, Status: strconv.Itoa(a.status), Proto: "HTTP/1.1", ProtoMajor: 1, ProtoMinor: 1,
 		Header: http.Header{"Content-Type": []string{a.ctype}}, Body: body, Request: req}, nil
 }
 
@@ -746,7 +776,13 @@ func (w *clientWorld) build() {
 			sim.YieldHere("OnRetry")
 		},
 	}
+	if w.noOnRetry {
+		client.OnRetry = nil
+		w.o.probe("Client without OnRetry")
+	}
 	switch w.validator {
+	case 3:
+		client.ResponseValidator = sse.NoopValidator
 	case 1:
 		client.ResponseValidator = func(r *http.Response) error { return sse.DefaultValidator(r) }
 	case 2:
@@ -765,7 +801,26 @@ func (w *clientWorld) build() {
 		w.o.probe("Client reused for a further NewConnection")
 	}
 	req := w.newRequest()
-	w.conn = client.NewConnection(req)
+	if w.useDefault {
+		saved := *sse.DefaultClient
+		sse.DefaultClient.HTTPClient, sse.DefaultClient.OnRetry = client.HTTPClient, client.OnRetry
+		w.conn = sse.NewConnection(req)
+		*sse.DefaultClient = saved
+		w.o.probe("package-level NewConnection (DefaultClient)")
+	} else {
+		w.conn = client.NewConnection(req)
+	}
+	if w.lateEdits {
+		// "we clone the client so the config cannot be modified from outside", and the request likewise
+		client.Backoff = sse.Backoff{InitialInterval: 77 * time.Hour, MaxRetries: -1, Jitter: 0.9}
+		client.OnRetry = func(error, time.Duration) {
+			w.o.violate("C12", "late-client-edit", "an OnRetry installed on the caller's Client after NewConnection was called")
+		}
+		client.ResponseValidator = func(*http.Response) error { return newInjected("validator installed after NewConnection") }
+		req.Header.Set("Last-Event-ID", "set-by-the-caller-afterwards")
+		req.Header.Set("Accept", "text/plain")
+		w.o.probe("Client and request edited after NewConnection")
+	}
 	if w.bufSize > 0 {
 		var buf []byte
 		if w.ch.Chance(1, 2, "caller-supplied buffer") {
@@ -1011,6 +1066,10 @@ func (w *clientWorld) evaluate(res verifhook.Result, bubblePanic string) {
 		return
 	}
 	if w.connectReturned == 0 {
+		if w.noOnRetry && res.SimTime >= 1<<62-1 {
+			o.Inconclusive = true // a wait that reaches beyond the simulated horizon, and no OnRetry to tell its size
+			return
+		}
 		if n := len(w.retries); n > 0 && w.retries[n-1].at+w.retries[n-1].d >= 1<<62-1 || res.SimTime >= 1<<62-1 && n > 0 && w.retries[n-1].d > 1<<58 {
 			o.Inconclusive = true // an announced wait reaches beyond the simulated horizon (2^62 ns): outside the property's bounds
 			return
@@ -1056,6 +1115,21 @@ func (w *clientWorld) evaluate(res verifhook.Result, bubblePanic string) {
 	}
 	for _, r := range w.sim.Races() {
 		o.violate("C13", "data-race", "lockset violation: %s", r.String())
+	}
+	if w.noOnRetry {
+		// no OnRetry to announce the waits: take them from the instants at which one attempt ended and the next began
+		w.retries = nil
+		for _, c := range w.calls {
+			var prev *attemptRec
+			for _, a := range w.attempts {
+				if a.startSeq > c.invoked && a.startSeq < c.returned {
+					if prev != nil {
+						w.retries = append(w.retries, retryRec{at: prev.ended, seq: a.retrySlot, d: a.start - prev.ended})
+					}
+					prev = a
+				}
+			}
+		}
 	}
 	w.deriveEvents()
 	w.checkEvents()
